@@ -872,13 +872,57 @@ def easylist_regexes(repo):
     return out
 
 
+def _capture_shape(src):
+    """top-level structure of a regex by Python's own parser: True iff it is  (group 1) \\s* (group 2)?  with group 2 = [class]+"""
+    try:
+        try:
+            import re._parser as sp
+        except ImportError:           # Python < 3.11
+            import sre_parse as sp
+        t = list(sp.parse(src))
+    except Exception:
+        return False
+    if len(t) != 3 or re.compile(src).groups != 2:
+        return False
+    (o1, a1), (o2, a2), (o3, a3) = t
+    if str(o1) != 'SUBPATTERN' or a1[0] != 1:
+        return False
+    if str(o2) != 'MAX_REPEAT' or a2[0] != 0 or a2[1] < 65535 or len(a2[2]) != 1 or str(a2[2][0][0]) != 'IN':
+        return False
+    if str(o3) != 'MAX_REPEAT' or (a3[0], a3[1]) != (0, 1) or len(a3[2]) != 1:
+        return False
+    o4, a4 = a3[2][0]
+    if str(o4) != 'SUBPATTERN' or a4[0] != 2 or len(a4[3]) != 1 or str(a4[3][0][0]) != 'MAX_REPEAT' or a4[3][0][1][0] != 1:
+        return False
+    return True
+
+
+def easylist_unit_expr(repo):
+    """how cssLengthUnits is taken from the match: 'm.group(2)' | 'm.group(2).lower()' | None (something else)"""
+    path = os.path.join(repo, 'odf', 'easyliststyle.py')
+    with open(path, encoding='utf-8') as f:
+        tree = ast.parse(f.read())
+    found = []
+    for fn in tree.body:
+        if isinstance(fn, ast.FunctionDef) and fn.name == 'styleFromList':
+            for n in ast.walk(fn):
+                if isinstance(n, ast.If) and _u(n.test) in ('m.lastindex == 2',):
+                    for st in n.body:
+                        if isinstance(st, ast.Assign) and _u(st.targets[0]) == 'cssLengthUnits':
+                            found.append(_u(st.value))
+    return found[0] if len(found) == 1 else None
+
+
 def lean_easylist(repo):
-    """Generated/EasyListRe.lean: the class of format characters and the two classes of the CSS-length regex.
-    The model is written for the shapes `([C])` and `([^U]+)\\s*([U]+)?`; any other shape yields `shapeOK := false`."""
+    """Generated/EasyListRe.lean: the class of format characters; group 1 of the CSS-length regex as an `RE` term, its
+    white-space class and unit class; whether the unit is lower-cased.  The model is written for the shapes `([C])` and
+    `(G1)\\s*([U]+)?` searched with `.search`; any other shape yields `shapeOK := false`."""
     rx = easylist_regexes(repo)
     nf, css = rx.get('numFormatPattern'), rx.get('cssLengthPattern')
-    ok = True
-    fmt_ranges, unit_ranges = (), ()
+    unit_expr = easylist_unit_expr(repo)
+    ok = unit_expr in ('m.group(2)', 'm.group(2).lower()')
+    fmt_ranges, unit_ranges, space_ranges = (), (), ()
+    num_lean, num_ast = 'RE.nothing', None
     try:
         a, end = parse_regex(nf, 'py')
         if a[0] == 'cls' and not a[1] and end is None:
@@ -886,30 +930,41 @@ def lean_easylist(repo):
         else:
             ok = False
         b, end = parse_regex(css, 'py')
-        if (end is None and b[0] == 'seq' and len(b[1]) == 3
-                and b[1][0][0] == 'plus' and b[1][0][1][0] == 'cls' and b[1][0][1][1] is True
-                and b[1][1] == ('star', ('cls', False, py_space_ranges()))
+        if (end is None and _capture_shape(css) and b[0] == 'seq' and len(b[1]) == 3
+                and b[1][1][0] == 'star' and b[1][1][1][0] == 'cls' and b[1][1][1][1] is False
                 and b[1][2][0] == 'opt' and b[1][2][1][0] == 'plus' and b[1][2][1][1][0] == 'cls'
-                and b[1][2][1][1][1] is False and b[1][2][1][1][2] == b[1][0][1][2]
-                and css.startswith('([') and css.count('(') == 2):
-            unit_ranges = b[1][0][1][2]
+                and b[1][2][1][1][1] is False):
+            num_ast = b[1][0]
+            num_lean = re_lean(num_ast)
+            space_ranges = b[1][1][1][2]
+            unit_ranges = b[1][2][1][1][2]
         else:
             ok = False
     except (Unsupported, TypeError):
         ok = False
+    rg = lambda r: ', '.join('(%d, %d)' % x for x in r)
     L = ['-- GENERATED by harness/translate_attr.py from odf/easyliststyle.py -- do not edit',
-         'import OdfModel.Basic',
+         'import OdfModel.Regex',
          'namespace OdfModel.Generated.EasyListRe',
+         'open OdfModel.Regex',
          '-- numFormatPattern = %r' % (nf,),
          '-- cssLengthPattern = %r' % (css,),
-         '/-- the regexes have the shapes `([C])` and `([^U]+)\\s*([U]+)?` the model is written for -/',
+         '-- cssLengthUnits = %s' % (unit_expr,),
+         '/-- the regexes have the shapes `([C])` and `(G1)\\s*([U]+)?` the model is written for -/',
          'def shapeOK : Bool := %s' % ('true' if ok else 'false'),
          '/-- C: the numbering format characters -/',
-         'def fmtRanges : List (Nat × Nat) := [%s]' % ', '.join('(%d, %d)' % r for r in fmt_ranges),
+         'def fmtRanges : List (Nat × Nat) := [%s]' % rg(fmt_ranges),
+         '/-- G1: group 1 of cssLengthPattern (the number) -/',
+         'def numRE : RE := %s' % num_lean,
+         '/-- the class of `\\s` (complete probe of Python\'s re) -/',
+         'def spaceRanges : List (Nat × Nat) := [%s]' % rg(space_ranges),
          '/-- U: the unit characters -/',
-         'def unitRanges : List (Nat × Nat) := [%s]' % ', '.join('(%d, %d)' % r for r in unit_ranges),
+         'def unitRanges : List (Nat × Nat) := [%s]' % rg(unit_ranges),
+         '/-- `cssLengthUnits = m.group(2).lower()` (true) or `m.group(2)` (false) -/',
+         'def lowerUnit : Bool := %s' % ('true' if unit_expr == 'm.group(2).lower()' else 'false'),
          'end OdfModel.Generated.EasyListRe']
-    return '\n'.join(L) + '\n', {'numFormatPattern': nf, 'cssLengthPattern': css, 'ok': ok}
+    return '\n'.join(L) + '\n', {'numFormatPattern': nf, 'cssLengthPattern': css, 'ok': ok, 'unit_expr': unit_expr,
+                                 'num_ast': num_ast}
 
 
 if __name__ == '__main__':
